@@ -338,7 +338,7 @@ _RULE_EXTRA = {
            "ff-config (merge.fastForward unset / never / only x no flag / --ff / --no-ff / --ff-only for merge and pull; the flag wins), merge-shallow (merge of a named commit of a depth-limited fetch: refused and reported when its table is absent, exact fast-forward otherwise)",
     "C11": "; walks from 3..5 start points with a repeated one; 2 per DAG: CommitsQueue.RemoveAncestors(1..2 commits) on a frontier started from 1..3 commits and advanced by 0..2 pops, judged by reachability (exactly the ancestors leave, the rest keep their order)",
     "C12": "; 1 in 20: a repository directory (badger + SQLite files) with 1..3 transactions (in progress or committed, begun well before or after the time-to-live: default, 24h or 2h) staging 1..2 refs each, `wrgl gc` or `wrgl prune` through the command line, judged with the refs that exist afterwards as roots; 1 in 20: the SQLite ref store fails with a disk I/O error after 0..5 rows of a scan during prune (nothing reachable may go, success must mean complete), then a healthy re-run; 1 in 40: 30..60 commits over 25..40 tables on a real badger store",
-    "C13": "; every write position also as a single injected write error (the operation continues): consistency, error reported or harmless, re-run; every crash point also as a recovery history (crash, a complete prune of the reopened repository, the operation again: same refs, every commit they reach and its table present, consistent); 1 in 4 cases: the fetch command's Fetch (default refspec) against the reference server, remote 1..3 commits ahead on main, optional second branch, 0..2 tags outside the refspec, 1..n packfiles; 1 in 4: one of the four kinds in a repository that also holds an unreachable commit",
+    "C13": "; every write position also as a single injected write error (the operation continues): consistency, error reported or harmless, re-run; every crash point also as a recovery history (crash, a complete prune of the reopened repository, the operation again: same refs, every commit they reach and its table present, consistent); 1 in 4 cases: the fetch command's Fetch (default refspec) against the reference server, remote 1..3 commits ahead on main, optional second branch, 0..2 tags outside the refspec, 1..n packfiles; 1 in 4: one of the four kinds in a repository that also holds an unreachable commit; 1 in 12: `transaction commit` of an open transaction staging 1..3 branches (existing and new), staged as `wrgl commit --txid` does (write kinds and pairing from the extracted loop order; each interrupted run judged on its own branch order)",
     "C14": "; 1 in 5 scenarios inject the fault into discard (crash or single error at each of its store operations) and discard again; commit faults as crash or single error; 1 in 5 scenarios: the fault is one failing SQL statement inside the ref store (trigger: either statement of a branch's logged ref update, the status flip, a staged-ref delete, the transaction-row delete), then re-run / discard; 1 in 100 (thorough 1 in 400): branches made and the transaction staged by `wrgl commit --txid` (file argument / branch.file / --all in turn), dumped before and after staging and after each `wrgl transaction commit/discard` (one with a staged commit unreadable)",
     "C15": "; 1 in 8 logged sets run with a failing reflog insert (SQL trigger): must fail and change nothing; 1 in 4 sequences: logged sets with generated author, action, time and transaction id (two ids or none), then logged set + copy/rename + log read of the target; log entries are compared in all their fields; 1 in 5 sequences (tag store=fs): 60..130 ops (thorough 40..260) on the file-based store pkg/ref/fs over 17 file names and the names bulk renames make of them: three refs take most logged sets (entries of 60..400 bytes, generated author/e-mail/action/time, old value handed in as ref.SaveRef does), so logs reach dozens of entries over several 1024-byte chunks of the backward scanner; rename/copy also into directories that held no log; single-directory prefix listings, bulk delete/rename of remotes; logs read in between and for every name at the end",
     "C16": "; 1 in 4 cases: a merge of 2..3 branches (256..955 rows) with a deleted block / block index of base or branch or reads failing after k, under a 75 s watchdog, and without fault compared with the one-processor outcome; the table index is compared too; 1 in 4 of the rest: the commit command's ingest helper on a store that refuses the k-th write (must return the error, never hang); 1 in 5 of the rest: a progress bar created with total in {-1,0,1,5,10,1000}, moved by 0..4 Incr/SetTotal/SetCurrent calls, finished with Done() under a 20 s timer, compared with Model/PBar.lean; the merge consumer reaches the merge channel 0 / 0.3 / 20 ms after Start() (by case index) and, like `wrgl merge`, asks the merger for Columns() and PK() on the first message: they must be the merged table's columns and key, with or without a fault",
